@@ -1760,3 +1760,71 @@ func TestRacePairs(t *testing.T) {
 		pbt.Extra("race-detector", "operation_pairs_run_side_by_side:"+ct.Name, pairs)
 	}
 }
+
+// TestRaceInstances: two instances of a type share nothing. Each of two goroutines runs every exported method on its own
+// instance; any report of the race detector means the type keeps state outside its instances (a package-level scratch
+// buffer, a shared enumerator). For the double queue the two lane views ToString1 / ToString2 of ONE instance run side
+// by side as well (each delegates to another inner list).
+func TestRaceInstances(t *testing.T) {
+	if raceLogPrefix == "" {
+		t.Skip("VERIF_RACE_LOG not set: this sub-check runs in the -race group of the driver")
+	}
+	shard, nshards := pbt.Shard()
+	for ti, ct := range ctypes {
+		if ti%nshards != shard {
+			continue
+		}
+		calls := 0
+		for round := 0; round < pbt.Pick(3, 30); round++ {
+			inst := []reflect.Value{reflect.ValueOf(ct.New()), reflect.ValueOf(ct.New())}
+			var wg sync.WaitGroup
+			var gate atomic.Int32
+			for g := range inst {
+				populate(inst[g], ct, 3)
+				wg.Add(1)
+				go func(self reflect.Value) {
+					defer wg.Done()
+					for gate.Load() == 0 {
+					}
+					for _, name := range methodNames(ct) {
+						if ct.Kind == "queue" && (name == "Get" || name == "GetTimeout") {
+							populate(self, ct, 1) // never block: something is there
+						}
+						m := self.MethodByName(name)
+						func() {
+							defer func() { recover() }()
+							m.Call(callArgs(m, 1, 5, self, ct))
+						}()
+					}
+				}(inst[g])
+				calls += len(methodNames(ct))
+			}
+			gate.Store(1)
+			wg.Wait()
+			if ct.Name == "RequestDoubleQueue" {
+				self := inst[0]
+				populate(self, ct, 3)
+				if p2 := self.MethodByName("Put2"); p2.IsValid() {
+					p2.Call(callArgs(p2, 7, 7, self, ct))
+				}
+				var wg2 sync.WaitGroup
+				for _, name := range []string{"ToString1", "ToString2"} {
+					if m := self.MethodByName(name); m.IsValid() {
+						wg2.Add(1)
+						go func(m reflect.Value) {
+							defer wg2.Done()
+							for i := 0; i < 50; i++ {
+								m.Call(nil)
+							}
+						}(m)
+					}
+				}
+				wg2.Wait()
+			}
+		}
+		if res := classifyNewRaces(ct.Name); res != nil && res.Err != nil {
+			t.Fatalf("C10/race-detector violated (two goroutines, each calling every exported method of %s on an instance of its own): %v", ct.Name, res.Err)
+		}
+		pbt.Extra("race-detector", "method_calls_on_separate_instances:"+ct.Name, calls)
+	}
+}
